@@ -3,7 +3,8 @@
 // Basic::dumps / Basic::loads) is generic in the archive type; these archives have the byte format of
 // cereal::PortableBinary{Output,Input}Archive on a little-endian machine (one leading endianness byte, raw little-endian PODs, 64-bit
 // size tags) but write to / read from a byte vector instead of a std::ostream / std::istream, whose libstdc++ internals the
-// executor does not model.  The bytes produced natively by Basic::dumps are identical (checked by the native replay backend).
+// executor does not model.  Cross-compatibility with the real archives (each side reads what the other wrote) is checked in
+// the native validation runs of C19.
 #pragma once
 #include <symengine/serialize-cereal.h>
 #include <vector>
